@@ -102,7 +102,7 @@ pub fn usable_collateral(w: &World, b: usize) -> bool {
 /// like `usable_collateral`, also admitting pass-through (venue) banks
 pub fn usable_collateral_any(w: &World, b: usize) -> bool {
     let bank = w.bank(b);
-    bank.config.risk_tier == RiskTier::Collateral && fx(&bank.config.asset_weight_init.value) > zero() && bank.config.operational_state == BankOperationalState::Operational && (bank.config.asset_tag <= 1 || w.banks[b].kamino.is_some())
+    bank.config.risk_tier == RiskTier::Collateral && fx(&bank.config.asset_weight_init.value) > zero() && bank.config.operational_state == BankOperationalState::Operational && (bank.config.asset_tag <= 1 || w.banks[b].venue.is_some())
 }
 
 pub struct Lev {
